@@ -61,24 +61,21 @@
    diagram to the ordered composite of its layers is C09's subject; the
    correspondence check of C12 compares the whole evaluation.
 
-   The model describes the code AS IT IS:
-   * F9: `Measure(override_bits=True)` (and `Encode(reset_bits=True)`, which is
-     evaluated as its dagger's dagger) cannot be evaluated:
-     `CQMap.discard(self(box.dom).classical)` hands a Dim to a function that
-     reads `.classical` of a CQ -> AttributeError.  [ar_measure].
-   * F9b: `Encode(n, constructive=False)` declares dom = bit ** n,
-     cod = qubit ** n although it is evaluated as the adjoint of
-     `Measure(n, destructive=False) : qubit ** n -> qubit ** n @ bit ** n`
-     (a CQMap  C(2^n) @ Q(2^n) -> Q(2^n)).  So no well-typed circuit containing
-     it can be evaluated (Tensor.then: AxiomError) and the dagger of a circuit
-     containing Measure(destructive=False) is ill-typed ([mdagger] returns
-     AxiomError, the class the harness maps the DISCOPY_VERIF hook's
-     VerifHookError to; without the hook the ill-typed diagram is returned and
-     its evaluation raises AxiomError).  Same for the declared cod of
-     Encode(reset_bits=True) / dom-cod of Measure(override_bits=True).dagger().
-   * `Scalar.dagger` of a mixed scalar with non-real data returns a PURE
-     scalar (`Scalar(conj)`, is_mixed lost); [mbox_dagger] (needs an equality
-     test on the ring: section variable [req]).
+   The model describes the code AS IT IS.  Two defects found with this model
+   were repaired upstream and the model follows the repaired code:
+   * F9 (fix 77ff08b): `Measure(override_bits=True)` (and `Encode(reset_bits=True)`,
+     evaluated as its dagger's dagger) could not be evaluated:
+     `CQMap.discard(self(box.dom).classical)` handed a Dim to a function that
+     reads `.classical` of a CQ (AttributeError); now
+     `measure @ CQMap.discard(C(self(box.dom).classical))`.  [ar_measure].
+   * F9b (fix 1971467): `Encode(n, constructive=False)` / `Encode(n, reset_bits=True)`
+     were declared bit ** n -> qubit ** n although they are evaluated as the
+     adjoints of Measure(n, destructive=False) : qubit ** n -> qubit ** n @ bit ** n
+     and Measure(n, override_bits=True) : qubit ** n @ bit ** n -> bit ** n; now
+     Encode.__init__ adds the qubits to dom / the bits to cod.  [mbox_dom, mbox_cod].
+   * `Scalar.dagger` (fix 58fd18f): the dagger of a mixed scalar with non-real data
+     was the PURE `Scalar(conj)` (is_mixed lost); now
+     `Scalar(conj, name=self._name, is_mixed=self.is_mixed)`.  [mbox_dagger].
 
    Definitions only; proofs are in CQLemmas.v. *)
 From Coq Require Import List Bool Arith ZArith.
@@ -236,7 +233,7 @@ Section CQ.
     | MDiscard t => t
     | MMixedState _ => []
     | MMeasure n _ o => qubits_ty n ++ (if o then bits_ty n else [])
-    | MEncode n _ _ => bits_ty n                               (* whatever the flags (F9b) *)
+    | MEncode n c _ => (if c then [] else qubits_ty n) ++ bits_ty n
     | MMixedScalar _ => []
     | MSwap a b => [a; b]
     end.
@@ -249,7 +246,7 @@ Section CQ.
     | MDiscard _ => []
     | MMixedState t => t
     | MMeasure n d _ => (if d then [] else qubits_ty n) ++ bits_ty n
-    | MEncode n _ _ => qubits_ty n                             (* whatever the flags (F9b) *)
+    | MEncode n _ r => qubits_ty n ++ (if r then bits_ty n else [])
     | MMixedScalar _ => []
     | MSwap a b => [b; a]
     end.
@@ -281,9 +278,12 @@ Section CQ.
     | _ => false
     end.
 
-  (* the measurement part of cqmap.Functor._ar; F9: override_bits cannot be evaluated *)
-  Definition ar_measure (n : nat) (destructive override_bits : bool) : res cqmap :=
-    if override_bits then Err AttributeError else Ok (cq_measure n destructive).
+  (* the measurement part of cqmap.Functor._ar:
+       measure = CQMap.measure(self(box.dom).quantum, destructive)
+       measure @ CQMap.discard(C(self(box.dom).classical)) if box.override_bits else measure *)
+  Definition ar_measure (n : nat) (destructive override_bits : bool) : cqmap :=
+    if override_bits then cq_tensor (cq_measure n destructive) (cq_discard (n, 0))
+    else cq_measure n destructive.
 
   (* box.array of a pure box, as stored (whatever `_dagger`) *)
   Definition pure_raw (p : box SR) : mat SR :=
@@ -293,33 +293,30 @@ Section CQ.
     end.
 
   (* cqmap.Functor._ar(box) for a box that is not a Swap and not is_dagger *)
-  Definition raw_ar (b : mbox) : res cqmap :=
+  Definition raw_ar (b : mbox) : cqmap :=
     match b with
-    | MDiscard t => Ok (cq_discard (F_ob t))
+    | MDiscard t => cq_discard (F_ob t)
     | MMeasure n d o => ar_measure n d o
-    | MMixedState t => Ok (cq_dagger (cq_discard (F_ob t)))         (* self(box.dagger()).dagger() *)
-    | MEncode n c r => do m <- ar_measure n c r; Ok (cq_dagger m)   (* self(box.dagger()).dagger() *)
-    | MMixedScalar z => Ok (cq_scalar z)                            (* box.array[0] *)
-    | MPure (BScalar z) => Ok (cq_scalar (z * rconj z)%sr)             (* abs(box.array[0]) ** 2 *)
-    | MPure (BSqrt2 k) => Ok (cq_scalar (sqrt2_pow k * rconj (sqrt2_pow k))%sr)
-    | MPure p => Ok (cq_pure (box_dom p) (box_cod p) (pure_raw p))  (* CQMap.pure(Tensor(dom, cod, box.array)) *)
-    | MClassical m n data _ => Ok (cq_classical m n (mat_of_flat data))
-    | MCopy => Ok (cq_classical 1 2 (mat_of_flat spider_flat))
-    | MMatch => Ok (cq_classical 2 1 (mat_of_flat spider_flat))
-    | MBits bs _ => Ok (cq_classical 0 (length bs) (fun i o => delta (i ++ o) bs))
-    | MSwap a b => Ok (cq_swap (F_ob [a]) (F_ob [b]))               (* not reached through _ar *)
+    | MMixedState t => cq_dagger (cq_discard (F_ob t))              (* self(box.dagger()).dagger() *)
+    | MEncode n c r => cq_dagger (ar_measure n c r)                 (* self(box.dagger()).dagger() *)
+    | MMixedScalar z => cq_scalar z                                 (* box.array[0] *)
+    | MPure (BScalar z) => cq_scalar (z * rconj z)%sr               (* abs(box.array[0]) ** 2 *)
+    | MPure (BSqrt2 k) => cq_scalar (sqrt2_pow k * rconj (sqrt2_pow k))%sr
+    | MPure p => cq_pure (box_dom p) (box_cod p) (pure_raw p)       (* CQMap.pure(Tensor(dom, cod, box.array)) *)
+    | MClassical m n data _ => cq_classical m n (mat_of_flat data)
+    | MCopy => cq_classical 1 2 (mat_of_flat spider_flat)
+    | MMatch => cq_classical 2 1 (mat_of_flat spider_flat)
+    | MBits bs _ => cq_classical 0 (length bs) (fun i o => delta (i ++ o) bs)
+    | MSwap a b => cq_swap (F_ob [a]) (F_ob [b])                    (* not reached through _ar *)
     end.
 
   (* cqmap.Functor()(box): a Swap goes to CQMap.swap; an is_dagger box to
      ar[box.dagger()].dagger(); anything else to _ar *)
-  Definition cq_box (b : mbox) : res cqmap :=
+  Definition cq_box (b : mbox) : cqmap :=
     match b with
-    | MSwap x y => Ok (cq_swap (F_ob [x]) (F_ob [y]))
-    | MPure BSwap => Ok (cq_swap (0, 1) (0, 1))
-    | _ =>
-        if mbox_is_dagger b
-        then do m <- raw_ar (undagger b); Ok (cq_dagger m)
-        else raw_ar b
+    | MSwap x y => cq_swap (F_ob [x]) (F_ob [y])
+    | MPure BSwap => cq_swap (0, 1) (0, 1)
+    | _ => if mbox_is_dagger b then cq_dagger (raw_ar (undagger b)) else raw_ar b
     end.
 
   (* ---------------------------------------------------------------- circuits *)
@@ -357,11 +354,6 @@ Section CQ.
 
 
   (* ---------------------------------------------------------------- dagger *)
-  Section Dagger.
-  (* `data.conjugate() == data` of Scalar.__init__: an equality test on the ring
-     (instantiated by c32_eqb) *)
-  Variable req : SR -> SR -> bool.
-
   (* box.dagger() *)
   Definition mbox_dagger (b : mbox) : mbox :=
     match b with
@@ -373,18 +365,13 @@ Section CQ.
     | MMixedState t => MDiscard t
     | MMeasure n d o => MEncode n d o
     | MEncode n c r => MMeasure n c r
-    | MMixedScalar z =>                                        (* Scalar.dagger *)
-        if req (rconj z) z then MMixedScalar z else MPure (BScalar (rconj z))
+    | MMixedScalar z => MMixedScalar (rconj z)     (* Scalar.dagger: self if real, else Scalar(conj, is_mixed) *)
     | MSwap a b => MSwap b a
     end.
 
-  (* self.dagger(): reversed, box by box.  The result is ill-typed when a box's
-     dagger does not have the transposed type (F9b); the DISCOPY_VERIF hook then
-     refuses the diagram (reported as AxiomError, see the header) *)
-  Definition mdagger (a : mcircuit) : res mcircuit :=
-    let d := MC (cod_or_nil a) (rev (map (fun l => (fst l, mbox_dagger (snd l))) (m_layers a))) in
-    if wf_mcircuit d then Ok d else Err AxiomError.
-  End Dagger.
+  (* self.dagger(): reversed, box by box (well-typed again: CQLemmas.mdagger_wf) *)
+  Definition mdagger (a : mcircuit) : mcircuit :=
+    MC (cod_or_nil a) (rev (map (fun l => (fst l, mbox_dagger (snd l))) (m_layers a))).
 
   (* Circuit.is_mixed *)
   Definition both_kinds (t : cty) : bool := (0 <? nb t) && (0 <? nq t).
@@ -419,11 +406,10 @@ Section CQ.
 
   (* ---------------------------------------------------------------- mixed evaluation *)
   (* id_l @ self(box) @ id_r *)
-  Definition cq_layer (scan : cty) (l : nat * mbox) : res cqmap :=
+  Definition cq_layer (scan : cty) (l : nat * mbox) : cqmap :=
     let left := firstn (fst l) scan in
     let right := skipn (fst l + length (mbox_dom (snd l))) scan in
-    do m <- cq_box (snd l);
-    Ok (cq_tensor (cq_tensor (cq_id (F_ob left)) m) (cq_id (F_ob right))).
+    cq_tensor (cq_tensor (cq_id (F_ob left)) (cq_box (snd l))) (cq_id (F_ob right)).
 
   (* the loop of monoidal.Functor.__call__: result = result >> id_l @ F(box) @ id_r;
      [fz] re-tabulates (executable) or is the identity (specification) *)
@@ -432,8 +418,7 @@ Section CQ.
     match ls with
     | [] => Ok acc
     | l :: ls' =>
-        do m <- cq_layer scan l;
-        do acc' <- cq_then acc (fz m);
+        do acc' <- cq_then acc (fz (cq_layer scan l));
         cq_eval_layers fz (step_ty scan l) (fz acc') ls'
     end.
 
